@@ -160,6 +160,7 @@ def sym_dV(ctx, region):
 
 
 def case_solidbody(ctx, family, kind="Field"):
+    # regions are built inside the symbolic run: all geometry arithmetic is exact rational
     m = tiny_mesh(family)
     region = REGION[family](m)
     W = sym_dV(ctx, region)
@@ -175,7 +176,39 @@ def case_solidbody(ctx, family, kind="Field"):
     check_item(ctx, field, lambda: fem.SolidBody(umat, field), x, W=None, symmetric=True, **kw)
 
 
+def case_solidbody_statevars(ctx, family, kind="PlaneStrain"):
+    """history-dependent material (public fem.Material API): the stress depends on the STORED state z,
+    the update returns a different tentative state; the matrix must be the derivative of the vector
+    at the stored state (vector first, then matrix - the order the Newton solver uses)"""
+    # regions are built inside the symbolic run: all geometry arithmetic is exact rational
+    m = tiny_mesh(family)
+    region = REGION[family](m)
+    if kind == "Field":
+        field = fem.FieldContainer([fem.Field(region, dim=m.dim)])
+    else:
+        field = fem.FieldContainer([fem.FieldPlaneStrain(region, dim=2)])
+    x = unknowns(ctx, field)
+    install(ctx, field, x)
+    base = AbstractHyperelastic(ctx, 3)
+    nq, nc = region.dV.shape
+    z = ctx.array("z", (1, nq, nc), 0.1, 1)
+
+    def stress(xx, **kw):
+        F, zn = xx[0], xx[-1]
+        P = base.gradient([F, None])[0]
+        trF = F[0, 0] + F[1, 1] + F[2, 2]
+        return [(1 + zn[0]) * P, (zn + trF).reshape(zn.shape)]
+
+    def elasticity(xx, **kw):
+        F, zn = xx[0], xx[-1]
+        return [(1 + zn[0]) * base.hessian([F, None])[0]]
+
+    umat = fem.Material(stress, elasticity, nstatevars=1)
+    check_item(ctx, field, lambda: fem.SolidBody(umat, field, statevars=z), x, symmetric=True)
+
+
 def case_mixed(ctx, family, wrapper, kind="Field"):
+    # regions are built inside the symbolic run: all geometry arithmetic is exact rational
     m = tiny_mesh(family)
     region = REGION[family](m)
     W = sym_dV(ctx, region)
@@ -192,6 +225,7 @@ def case_mixed(ctx, family, wrapper, kind="Field"):
 
 
 def case_nearly_incompressible(ctx, family, kind="Field", abstract_area=False):
+    # regions are built inside the symbolic run: all geometry arithmetic is exact rational
     m = tiny_mesh(family)
     region = REGION[family](m)
     if kind == "Field":
@@ -207,9 +241,10 @@ def case_nearly_incompressible(ctx, family, kind="Field", abstract_area=False):
 
 
 def case_surface_load(ctx, family, which, kind="Field"):
-    m = tiny_mesh(family)
-    Rb = {"hex8": fem.RegionHexahedronBoundary, "quad4": fem.RegionQuadBoundary, "quad4axi": fem.RegionQuadBoundary}[family]
-    region = Rb(m, ensure_3d=True) if kind == "Axisymmetric" else Rb(m)
+    with ctx.concrete():
+        m = tiny_mesh(family)
+        Rb = {"hex8": fem.RegionHexahedronBoundary, "quad4": fem.RegionQuadBoundary, "quad4axi": fem.RegionQuadBoundary}[family]
+        region = Rb(m, ensure_3d=True) if kind == "Axisymmetric" else Rb(m)
     W = sym_dV(ctx, region)
     if kind == "Field":
         field = fem.FieldContainer([fem.Field(region, dim=m.dim)])
@@ -241,6 +276,7 @@ def case_multipoint(ctx, which, dim):
 
 
 def case_loads(ctx, which, family):
+    # regions are built inside the symbolic run: all geometry arithmetic is exact rational
     m = tiny_mesh(family)
     region = REGION[family](m)
     W = sym_dV(ctx, region)
@@ -320,6 +356,9 @@ def cases(tier):
     if thorough:
         for fam, kind in [("quad4x2", "PlaneStrain"), ("quad8", "PlaneStrain"), ("quad9", "PlaneStrain"), ("tri6", "PlaneStrain"), ("tet10", "Field"), ("hex20", "Field")]:
             out.append(("solidbody", case_solidbody, {"family": fam, "kind": kind}))
+    out.append(("solidbody_statevars", case_solidbody_statevars, {"family": "quad4", "kind": "PlaneStrain"}))
+    if thorough:
+        out.append(("solidbody_statevars", case_solidbody_statevars, {"family": "hex8", "kind": "Field"}))
     for w in ("ThreeFieldVariation", "NearlyIncompressible"):
         if thorough or w == "NearlyIncompressible":
             out.append(("mixed", case_mixed, {"family": "quad4", "wrapper": w, "kind": "PlaneStrain"}))
